@@ -138,6 +138,27 @@ def run(prog, ctx):
                     res.discharged += 1
                 else:
                     res.violate("C06.O", "C06.O|%s|dst-lg" % f.id, "%s passes lg %s with a destination matrix of lg %s" % (f.id, show(a1), wtxt), f.id, site["span"])
+    # source-side lg arguments read from `self` must be the value the source matrix was built with: no store to that field
+    # may reach the call (the read is flow-insensitive in the provenance DAG, so this is checked on the CFG)
+    for f in ufns:
+        s = Sym(prog, f, ifconv=False)
+        for b, site in f.calls():
+            cal = site.get("callee") or ""
+            if not (cal.startswith("cpc::union::or_") and len(site["args"]) >= 4):
+                continue
+            for ai in range(2, len(site["args"])):
+                a = s.at(b, "t").operand(site["args"][ai])
+                if not (a[0] == "field" and a[1][0] == "param" and a[1][1] == 1):
+                    continue
+                res.obligations += 1
+                clob = [bb for (ff, bb, kind, place, rv, span, adt, fld) in sym.field_stores(prog, field=a[2], fns=[f])
+                        if kind == "assign" and place[0] == 1 and (bb == b or s._reaches(bb, b)) and not f.blocks[bb].cleanup]
+                # a store in the same block counts only if it precedes the call (the call is the terminator, so any does)
+                if clob:
+                    res.violate("C06.O", "C06.O|%s|stale-%s" % (f.id, a[2]), "%s passes self.%s as the source size to %s after overwriting it; the source matrix still has its old size, so rows above the new size are dropped instead of folded" % (
+                        f.id, a[2], cal.rsplit("::", 1)[-1]), f.id, site["span"])
+                else:
+                    res.discharged += 1
     res.rule("C06.O.calls", n_c, 5, "or_* call sites")
     wt = prog.fns.get("cpc::union::walk_table_updating_sketch")
     if wt is not None:
